@@ -485,6 +485,52 @@ Proof.
 Qed.
 End Facts.
 
+(* ------------------------------------------------------------------ mode flags and argv[0] *)
+Lemma loop_v_outcome : forall conv fails v i fuel args x,
+  fst (loop_v conv fails v i args fuel x) = loop conv fails i args fuel x.
+Proof.
+  intros conv fails v i. induction fuel as [|fuel IH]; intros args x; simpl.
+  - destruct (length args <=? x)%nat; reflexivity.
+  - destruct (length args <=? x)%nat; [reflexivity|].
+    destruct (target_switch (switch_cases i) _) as [t|]; [|reflexivity].
+    destruct (length args <? S (x + length (targs t)))%nat; [reflexivity|].
+    destruct (parse_args conv args (targs t) (S x)) as [[b|vs] x']; [reflexivity|].
+    destruct (fails (tdef t) vs); [reflexivity|].
+    specialize (IH args x'). destruct (loop_v conv fails v i args fuel x') as [[cs e] l].
+    simpl in IH. rewrite <- IH. reflexivity.
+Qed.
+
+Theorem main_outcome : forall conv fails m i env args,
+  fst (main conv fails m i env args) = dispatch conv fails i env args.
+Proof.
+  intros conv fails m i env args. unfold main, dispatch.
+  destruct (length args <? 1)%nat; [reflexivity|]. apply loop_v_outcome.
+Qed.
+
+Theorem mode_flags_irrelevant : forall conv fails m m' i env args,
+  fst (main conv fails m i env args) = fst (main conv fails m' i env args).
+Proof. intros. rewrite !main_outcome. reflexivity. Qed.
+
+Lemma loop_v_quiet : forall conv fails i fuel args x, snd (loop_v conv fails false i args fuel x) = [].
+Proof.
+  intros conv fails i. induction fuel as [|fuel IH]; intros args x; simpl.
+  - destruct (length args <=? x)%nat; reflexivity.
+  - destruct (length args <=? x)%nat; [reflexivity|].
+    destruct (target_switch (switch_cases i) _) as [t|]; [|reflexivity].
+    destruct (length args <? S (x + length (targs t)))%nat; [reflexivity|].
+    destruct (parse_args conv args (targs t) (S x)) as [[b|vs] x']; [reflexivity|].
+    destruct (fails (tdef t) vs); [reflexivity|].
+    specialize (IH args x'). destruct (loop_v conv fails false i args fuel x') as [[cs e] l].
+    simpl in *. assumption.
+Qed.
+
+Theorem quiet_without_verbose : forall conv fails m i env args, m_verbose m = false ->
+  snd (main conv fails m i env args) = [].
+Proof.
+  intros conv fails m i env args H. unfold main. destruct (length args <? 1)%nat; [reflexivity|].
+  rewrite H. apply loop_v_quiet.
+Qed.
+
 (* ------------------------------------------------------------------ the order of the switch cases *)
 Section Order.
 Variable conv : argty -> string -> option string.
